@@ -148,6 +148,7 @@ def corr(seed, tier):
     cases = []
     for i in range(300 if tier == 'quick' else 6000):
         sc = explore.gen_scenario(rng, focus)
+        explore.strip_chains(sc)      # the trace models know the scenario's own transfers only
         if sc.get('cancel') and sc['cancel']['kind'] in ('interrupt-result', 'interrupt-exit'):
             sc['cancel'] = None
         trace = {}
